@@ -5,9 +5,11 @@ import (
 	"flag"
 	"fmt"
 	"reflect"
+	"sort"
 	"strings"
 	"sync"
 	"sync/atomic"
+	"time"
 
 	sio "github.com/karagenc/socket.io-go"
 
@@ -655,6 +657,383 @@ func reentMode(out *vk.Out, spec string, seed uint64, n int) {
 	}
 }
 
+// ---------------------------------------------------------------- linearizability histories
+// Several goroutines call the registry at once; every call is stamped at invocation and at
+// response with a global logical clock.  At least one call is a *long* Off: it names `absentK`
+// handlers that are not registered (and possibly some that are), so that its scan over the
+// registered handlers takes milliseconds and the other goroutines' calls fall inside it.  The
+// check then looks for an order of the calls that respects real time (a call that returned before
+// another was invoked comes first) and under which the atomic model returns what was observed.
+type linTarget interface {
+	target
+	// linApply runs one op; for "fire" it returns the handler ids WITHOUT using shared logs.
+	linApply(op hop, absentK int) (fired []int, isFire bool)
+	// linPrepare builds the arguments of an Off call; the returned function makes the call.
+	linPrepare(op hop) func()
+}
+
+var (
+	absentInts  []int
+	absentPtrs  []*int
+	absentFn    = func() { hit(-1) }
+	absentVals  []reflect.Value
+	absentAnys  []any
+	evCodeIndex map[uintptr]int
+)
+
+func prepareAbsent(k int) {
+	if len(absentPtrs) >= k {
+		return
+	}
+	absentInts = make([]int, k)
+	absentPtrs = make([]*int, k)
+	absentVals = make([]reflect.Value, k)
+	absentAnys = make([]any, k)
+	for i := range absentInts {
+		absentInts[i] = 1000 + i
+		absentPtrs[i] = &absentInts[i]
+		absentVals[i] = reflect.ValueOf(absentFn)
+		absentAnys[i] = absentFn
+	}
+	evCodeIndex = map[uintptr]int{}
+	for i := 0; i < 3; i++ { // distinct literals only
+		evCodeIndex[reflect.ValueOf(evMenu[i]).Pointer()] = i
+	}
+}
+
+func offParts(op hop, isEv bool) (hs []int, k int) {
+	i := 1
+	if isEv {
+		i = 2
+	}
+	hs = ints(op[i])
+	if len(op) > i+1 {
+		k = toInt(op[i+1])
+	}
+	return
+}
+
+func (t *lsTarget) linPrepare(op hop) func() {
+	hs, k := offParts(op, false)
+	ps := make([]*int, 0, len(hs)+k)
+	for _, h := range hs {
+		ps = append(ps, t.p(h))
+	}
+	ps = append(ps, absentPtrs[:k]...)
+	return func() { t.s.Off(ps...) }
+}
+
+func (t *lsTarget) linApply(op hop, absentK int) ([]int, bool) {
+	if op[0].(string) == "off" {
+		t.linPrepare(op)()
+		return nil, false
+	}
+	return t.apply(op)
+}
+
+func rvIDs(rvs []reflect.Value) []int {
+	r := make([]int, len(rvs))
+	for i, rv := range rvs {
+		id, ok := evCodeIndex[rv.Pointer()]
+		if !ok {
+			id = -1
+		}
+		r[i] = id
+	}
+	return r
+}
+
+func (t *esTarget) linPrepare(op hop) func() {
+	hs, k := offParts(op, true)
+	var vals []reflect.Value
+	for _, h := range hs {
+		vals = append(vals, reflect.ValueOf(evMenu[h]))
+	}
+	vals = append(vals, absentVals[:k]...)
+	name := evName(toInt(op[1]))
+	return func() { t.s.Off(name, vals) }
+}
+
+func (t *esTarget) linApply(op hop, absentK int) ([]int, bool) {
+	switch op[0].(string) {
+	case "off":
+		t.linPrepare(op)()
+		return nil, false
+	case "fire":
+		return rvIDs(t.s.GetAll(evName(toInt(op[1])))), true
+	}
+	return t.apply(op)
+}
+
+var linLogMu sync.Mutex
+
+func (t *objTarget) linPrepare(op hop) func() {
+	if t.family == "" {
+		ev := t.obj.(evAPI)
+		hs, k := offParts(op, true)
+		name := evName(toInt(op[1]))
+		if len(hs)+k == 0 {
+			return func() { ev.OffEvent(name) }
+		}
+		args := make([]any, 0, len(hs)+k)
+		for _, h := range hs {
+			args = append(args, evMenu[h])
+		}
+		args = append(args, absentAnys[:k]...)
+		return func() { ev.OffEvent(name, args...) }
+	}
+	_, k := offParts(op, false)
+	m := t.method("Off" + t.family)
+	ft := m.Type().In(0) // []F
+	sl := reflect.MakeSlice(ft, k, k)
+	if k > 0 {
+		f := t.mkFunc("On"+t.family, -1)
+		for i := 0; i < k; i++ {
+			sl.Index(i).Set(f)
+		}
+	}
+	args := []reflect.Value{sl}
+	return func() { m.CallSlice(args) }
+}
+
+func (t *objTarget) linApply(op hop, absentK int) ([]int, bool) {
+	if op[0].(string) == "off" {
+		t.linPrepare(op)()
+		return nil, false
+	}
+	if t.family == "" {
+		if op[0].(string) == "fire" {
+			rvs, err := sio.VerifEventOccurrence(t.obj, evName(toInt(op[1])))
+			if err != nil {
+				panic(err)
+			}
+			return rvIDs(rvs), true
+		}
+		return t.apply(op)
+	}
+	if op[0].(string) == "fire" { // only one goroutine of a history fires on a lifecycle family
+		linLogMu.Lock()
+		t.log = t.log[:0]
+		linLogMu.Unlock()
+		if _, err := sio.VerifLifecycleOccurrence(t.obj, lower1(t.family)); err != nil {
+			panic(err)
+		}
+		linLogMu.Lock()
+		r := append([]int{}, t.log...)
+		linLogMu.Unlock()
+		return r, true
+	}
+	return t.apply(op)
+}
+
+type linCall struct {
+	G   int   `json:"g"`
+	Op  hop   `json:"op"`
+	Inv int64 `json:"inv"`
+	Res int64 `json:"res"`
+	Out []int `json:"out"` // what an occurrence returned (null for other calls)
+}
+
+func linRandOp(spec string, r *vk.Rand, allowFire bool, absentK int) hop {
+	isEv := isEvSpec(spec)
+	isAPI := strings.HasPrefix(spec, "api")
+	e := 0
+	if isEv && r.Intn(5) == 0 {
+		e = 1
+	}
+	mk := func(name string, rest ...any) hop {
+		if isEv && name != "offall" {
+			return append(hop{name, e}, rest...)
+		}
+		return append(hop{name}, rest...)
+	}
+	for {
+		switch c := r.Intn(100); {
+		case c < 30:
+			return mk("on", r.Intn(3))
+		case c < 55:
+			return mk("once", r.Intn(3))
+		case c < 70:
+			if allowFire {
+				return mk("fire")
+			}
+		case c < 78:
+			if isAPI && strings.HasPrefix(spec, "api:srv") {
+				continue
+			}
+			return hop{"offall"}
+		case c < 86:
+			return mk("off", []int{}, 0)
+		default:
+			hs := []int{}
+			if !isAPI && r.Intn(2) == 0 {
+				hs = append(hs, r.Intn(3))
+			}
+			return mk("off", hs, absentK)
+		}
+	}
+}
+
+// linCalibrate measures how long a long Off takes on this target (median of 3).
+func linCalibrate(spec string, absentK int) time.Duration {
+	isEv := isEvSpec(spec)
+	var ds []time.Duration
+	for i := 0; i < 3; i++ {
+		t := newTarget(spec).(linTarget)
+		for j := 0; j < 30; j++ {
+			if isEv {
+				t.linApply(hop{"on", 0, j % 3}, absentK)
+			} else {
+				t.linApply(hop{"on", j % 3}, absentK)
+			}
+		}
+		op := hop{"off", []int{}, absentK}
+		if isEv {
+			op = hop{"off", 0, []int{}, absentK}
+		}
+		call := t.linPrepare(op)
+		t0 := time.Now()
+		call()
+		ds = append(ds, time.Since(t0))
+	}
+	sort.Slice(ds, func(a, b int) bool { return ds[a] < ds[b] })
+	return ds[1]
+}
+
+func linRound(out *vk.Out, spec string, r *vk.Rand, absentK int, dur time.Duration) {
+	t := newTarget(spec).(linTarget)
+	isEv := isEvSpec(spec)
+	isAPI := strings.HasPrefix(spec, "api")
+	var clock atomic.Int64
+	var started atomic.Bool
+	var calls []linCall
+	var mu sync.Mutex
+	panicked := ""
+	do := func(g int, op hop) {
+		var call func()
+		if op[0].(string) == "off" {
+			call = t.linPrepare(op) // building 10^5 arguments is not part of the call
+		}
+		if g == 1 {
+			started.CompareAndSwap(false, true) // the long Off is about to be invoked
+		}
+		inv := clock.Add(1)
+		var fired []int
+		isFire := false
+		if call != nil {
+			call()
+		} else {
+			fired, isFire = t.linApply(op, absentK)
+		}
+		res := clock.Add(1)
+		c := linCall{G: g, Op: op, Inv: inv, Res: res}
+		if isFire {
+			if fired == nil {
+				fired = []int{}
+			}
+			c.Out = fired
+		}
+		mu.Lock()
+		calls = append(calls, c)
+		mu.Unlock()
+	}
+	long := func() hop {
+		hs := []int{}
+		if !isAPI && r.Intn(3) == 0 {
+			hs = append(hs, r.Intn(3))
+		}
+		if isEv {
+			return hop{"off", 0, hs, absentK}
+		}
+		return hop{"off", hs, absentK}
+	}
+	// sequential prefix: some registrations, so that the long Off has something to scan
+	for i, n := 0, 24+r.Intn(12); i < n; i++ {
+		var op hop
+		if r.Intn(4) == 0 {
+			op = hop{"once", r.Intn(3)}
+		} else {
+			op = hop{"on", r.Intn(3)}
+		}
+		if isEv {
+			op = hop{op[0], 0, op[1]}
+		}
+		do(0, op)
+	}
+	// concurrent phase
+	progs := [][]hop{{long()}, {}, {}}
+	if r.Intn(3) == 0 {
+		progs[0] = append(progs[0], linRandOp(spec, r, false, absentK))
+	}
+	for i, n := 0, 1+r.Intn(3); i < n; i++ {
+		progs[1] = append(progs[1], linRandOp(spec, r, true, 0))
+	}
+	for i, n := 0, r.Intn(3); i < n; i++ {
+		if !isAPI && r.Intn(4) == 0 {
+			progs[2] = append(progs[2], long())
+		} else {
+			progs[2] = append(progs[2], linRandOp(spec, r, !isAPI, 0))
+		}
+	}
+	// the other goroutines' calls are spread over the duration of the long Off
+	delays := make([][]time.Duration, len(progs))
+	for g := range progs {
+		for range progs[g] {
+			delays[g] = append(delays[g], time.Duration(r.Intn(1000))*dur/1500)
+		}
+	}
+	var wg sync.WaitGroup
+	for g := range progs {
+		wg.Add(1)
+		go func(g int) {
+			defer wg.Done()
+			defer func() {
+				if p := recover(); p != nil {
+					mu.Lock()
+					panicked = fmt.Sprint(p)
+					mu.Unlock()
+				}
+			}()
+			if g != 0 {
+				for !started.Load() {
+				}
+			}
+			t0 := time.Now()
+			for i, op := range progs[g] {
+				if g != 0 {
+					for time.Since(t0) < delays[g][i] {
+					}
+				}
+				do(g+1, op)
+			}
+		}(g)
+	}
+	wg.Wait()
+	// closing occurrences, sequential
+	if isEv {
+		for _, e := range []int{0, 1, 0, 1} {
+			do(0, hop{"fire", e})
+		}
+	} else {
+		do(0, hop{"fire"})
+		do(0, hop{"fire"})
+	}
+	out.Put(map[string]any{"lin": 1, "target": spec, "calls": calls, "absent": absentK, "lens": t.lens(),
+		"panicmsg": panicked, "menu": evMenuFval})
+}
+
+func linMode(out *vk.Out, spec string, seed uint64, rounds, absentK int) {
+	prepareAbsent(absentK)
+	for _, c := range []byte(spec) {
+		seed = seed*1099511628211 + uint64(c)
+	}
+	r := vk.NewRand(seed ^ 0x11ea)
+	dur := linCalibrate(spec, absentK)
+	for i := 0; i < rounds; i++ {
+		linRound(out, spec, r.Fork(), absentK, dur)
+	}
+}
+
 // ---------------------------------------------------------------- running one sequence
 type runResult struct {
 	Outs     [][]int
@@ -1051,6 +1430,7 @@ func handlersMain(args []string) error {
 	maxLen := fs.Int("maxlen", 30, "")
 	goroutines := fs.Int("goroutines", 16, "")
 	opsJSON := fs.String("ops", "", "mode replay: the call sequence as JSON")
+	absentK := fs.Int("absent", 100000, "mode lin: handlers named by a long Off that are not registered")
 	concFlag := fs.Int("reent", -1, "mode replay: -1 plain sequence, 0 re-entrant call tree, 1 calls made by another goroutine")
 	outp := fs.String("out", "-", "")
 	fs.Parse(args)
@@ -1072,6 +1452,8 @@ func handlersMain(args []string) error {
 			raceMode(out, sp, *goroutines, *n)
 		case "reent":
 			reentMode(out, sp, *seed, *n)
+		case "lin":
+			linMode(out, sp, *seed, *n, *absentK)
 		case "replay":
 			var raw [][]any
 			if err := json.Unmarshal([]byte(*opsJSON), &raw); err != nil {
